@@ -175,6 +175,17 @@ var Items = []Item{
 	{ID: "index-of-call", Decls: "func mk%N%() []uint64 {\n\treturn make([]uint64, 2)\n}", Core: "r = mk%N%()[1] + 1"},
 	{ID: "selector-of-call", Decls: "type Sc%N% struct {\n\ta uint64\n}\n\nfunc mks%N%() Sc%N% {\n\treturn Sc%N%{a: 3}\n}", Core: "r = mks%N%().a"},
 
+
+	// ---- look-alikes: user definitions named like GooseLang library functions (captured by later emitted code) ----
+	{ID: "user-func-SliceGet", Decls: "func SliceGet(x uint64) uint64 {\n\treturn x + 100\n}", Setup: "s := make([]uint64, 2)\n\ts[1] = 5", Core: "r = s[1] + SliceGet(1)", Known: "c02LibraryNameCapture"},
+	{ID: "user-func-MapInsert", Decls: "func MapInsert(x uint64) uint64 {\n\treturn x + 100\n}", Setup: "m := make(map[uint64]uint64)", Core: "m[1] = 2\n\tr = m[1] + MapInsert(1)", Known: "c02LibraryNameCapture"},
+	{ID: "user-func-NewSlice", Decls: "func NewSlice(x uint64) uint64 {\n\treturn x + 100\n}", Core: "s := make([]uint64, 3)\n\tr = uint64(len(s)) + NewSlice(1)", NoCtx: true, Known: "c02LibraryNameCapture"},
+	{ID: "user-func-ref_to", Decls: "func ref_to(x uint64) uint64 {\n\treturn x + 100\n}", Core: "var v uint64 = 3\n\tr = v + ref_to(1)", NoCtx: true, Known: "c02LibraryNameCapture"},
+	{ID: "user-func-Fst", Decls: "func Fst(x uint64) uint64 {\n\treturn x + 100\n}", Setup: "m := make(map[uint64]uint64)\n\tm[1] = 7", Core: "r = m[1] + Fst(1)", Known: "c02LibraryNameCapture"},
+	{ID: "user-func-to_u64", Decls: "func to_u64(x uint64) uint64 {\n\treturn x + 100\n}", Setup: "var k uint32 = 3", Core: "r = uint64(k) + to_u64(1)", Known: "c02LibraryNameCapture"},
+	{ID: "user-const-uint64T", Decls: "const uint64T uint64 = 5", Core: "var v uint64 = 3\n\tr = v + uint64T", NoCtx: true, Known: "c02LibraryNameCapture"},
+	{ID: "user-func-Continue", Decls: "func Continue() uint64 {\n\treturn 100\n}", Core: "for i := uint64(0); i < 2; i++ {\n\t\tr += 1\n\t}\n\tr += Continue()", NoCtx: true, Known: "c02LibraryNameCapture"},
+
 	// ---- look-alikes: user definitions that share a name with a builtin ----
 	{ID: "user-func-len", Decls: "func len(x uint64) uint64 {\n\treturn x + 100\n}", Core: "r = len(3)", Known: "c02BuiltinLookalike"},
 	{ID: "user-func-cap", Decls: "func cap(x uint64) uint64 {\n\treturn x + 100\n}", Core: "r = cap(3)", Known: "c02BuiltinLookalike"},
@@ -212,7 +223,7 @@ func ByID(id string) *Item {
 // Solo reports whether the item redefines a universe name at package level
 // and therefore needs a package of its own.
 func (it *Item) Solo() bool {
-	return strings.HasPrefix(it.ID, "user-func-") || strings.HasPrefix(it.ID, "user-var-")
+	return strings.HasPrefix(it.ID, "user-func-") || strings.HasPrefix(it.ID, "user-var-") || strings.HasPrefix(it.ID, "user-const-")
 }
 
 func indent(s string) string { return strings.ReplaceAll(s, "\n", "\n\t") }
